@@ -23,6 +23,7 @@ func init() {
 		Parts: []Part{
 			{Name: "identity", Run: c01Run, QuickS: 240, ThoroughS: 1500},
 			{Name: "containers", Run: c01Apps, Workers: 4, QuickS: 30, ThoroughS: 60},
+			{Name: "names", Run: c01Names, Workers: 2, QuickS: 30, ThoroughS: 60},
 		},
 	})
 }
